@@ -128,12 +128,11 @@ V("C05", "trigger_no_finally", "fire", "R05.a", (Z, """        self_._TRIGGER = 
         finally:
             self_._TRIGGER = False
             self_._events += events
-            self_._state_watchers += watchers
 """, """        self_._TRIGGER = True
         self_.update(dict(params, **triggers))
-        self_._TRIGGER = False
-        self_._events += events
-        self_._state_watchers += watchers
+        if True:
+            self_._TRIGGER = False
+            self_._events += events
 """))
 V("C05", "trigger_parks_queues_too_early", "fire", "R05.a", (Z, """        param_values = self_.values()
         params = {name: param_values[name] for name in param_names}
@@ -210,11 +209,9 @@ V("C05", "benign_reorder_discard_restores", "benign", None, (Z, """        param
 """))
 V("C05", "benign_trigger_restore_order", "benign", None, (Z, """            self_._TRIGGER = False
             self_._events += events
-            self_._state_watchers += watchers
-""", """            self_._state_watchers += watchers
-            self_._events += events
+            # A watcher queued both before""", """            self_._events += events
             self_._TRIGGER = False
-"""))
+            # A watcher queued both before"""))
 
 # ======================================================================= C02
 V("C02", "relink_before_validate", "fire", "R02.a", (Z, """        self._validate(val)
